@@ -348,7 +348,13 @@ def run(ctx: Ctx) -> None:
 
     def _placing(node: Node, var: str, m=mod) -> bool:
         if node.kind == "test":
-            return False
+            # `if toks:` / `if toks[1:-1]:` -- on the false edge there is nothing (but delimiters) to pass on
+            c_ = node.cond
+            while isinstance(c_, ast.UnaryOp) and isinstance(c_.op, ast.Not):
+                c_ = c_.operand
+            if isinstance(c_, ast.Subscript) and isinstance(c_.slice, ast.Slice):
+                c_ = c_.value
+            return isinstance(c_, ast.Name) and c_.id == var
         for e_ in node.exprs():
             for x in ast.walk(e_):
                 if not (isinstance(x, ast.Name) and x.id == var and isinstance(x.ctx, ast.Load)):
@@ -387,6 +393,52 @@ def run(ctx: Ctx) -> None:
             ctx.ob("R14.9", f"parser:CxxParser.{fname}|`{short(n.stmt, 60)}`", not leak,
                    msg=f"the tokens collected into `{var}` can reach the end of {fname} having only been inspected (or passed on in one arm of a conditional expression): the value position is reported without the source tokens of its expression", node=n.stmt, mod=mod)
 
+    # ---------------------------------------------------------------- R14.11
+    # "the array brackets are left out and nothing else is": the lexer has a token for two closing brackets, and the
+    # balanced consumer lets it close two pending '[' (`x[a[0]]`).  When the group was opened by '[', its last token can
+    # therefore hold the closer of the group AND the last token of the content; stripping `[1:-1]` then takes both.
+    # Wherever a '['-opened group is stripped, the function looks at the type of the group's last token (for the fused
+    # closer) -- or the lexer has no such token.
+    ctx.rule("R14.11", "a '['-opened group that is stripped of its delimiters is checked for the fused ']]' closer", minimum=1)
+    from ..lexmodel import LexModel as _LM11
+    fused_types = [r.tokname for r in _LM11(ctx.repo).rules if r.kind == "str" and r.regex.replace("\\", "") == "]]"]
+    for fname in sorted(pm.methods):
+        fn_ = pm.fn(fname)
+        cfg = pm.cfg(fname)
+        for n in cfg.nodes:
+            for c, r in pm.node_calls(fname, n):
+                if r != ("self", "_consume_balanced_tokens") or not c.args or not isinstance(c.args[0], ast.Name):
+                    continue
+                # is the opener known to be '[' here ?
+                opener = None
+                from .c13 import _typefacts as _tf13
+                fact = _tf13(pm, fname).at(n, c.args[0].id)
+                if fact is not None and fact[0] == "in" and set(fact[1]) == {"["}:
+                    opener = "["
+                if opener != "[":
+                    continue
+                # the result (or a name bound to it) is sliced [1:-1] in this function
+                holder = m_parent_assign_name(mod, c)
+                sliced = [x for x in walk_local(fn_) if isinstance(x, ast.Subscript) and isinstance(x.slice, ast.Slice) and norm(x.slice) == "1:-1"
+                          and ((holder and isinstance(x.value, ast.Name) and x.value.id == holder) or x.value is c)]
+                if not sliced:
+                    continue
+                looks = [x for x in walk_local(fn_) if isinstance(x, ast.Compare) and any(isinstance(k, ast.Constant) and k.value in fused_types for k in ast.walk(x))
+                         and any(isinstance(y, ast.Subscript) and isinstance(y.slice, ast.UnaryOp) and isinstance(y.slice.operand, ast.Constant) and y.slice.operand.value == 1 for y in ast.walk(x))]
+                ok = not fused_types or bool(looks)
+                ctx.ob("R14.11", f"parser:CxxParser.{fname}|`{short(c, 40)}` stripped with [1:-1]", ok,
+                       msg=f"the group is opened by '[' and stripped of its first and last token, but the last token may be the fused {fused_types} closing the group and a subscript inside it: for `int x[a[0]];` the size is reported as `a[0` (the closing bracket of the content is lost)", node=sliced[0], mod=mod)
+
+    # ---------------------------------------------------------------- R14.10
+    # "exactly the source tokens": the values are cut out of the buffer the token stream fills; a fill that fuses, rewrites
+    # or drops raw tokens (two adjacent string literals made one) changes every value that contains them.  The buffer fill
+    # interpreted over short scripts of raw tokens (sa/fillmodel.py): every raw token is buffered once, in order, unchanged
+    # - user-defined-literal fusion being the one documented exception, decided there as well.
+    ctx.rule("R14.10", "the buffer the values are cut from holds every raw token once, in order, unchanged (UDL fusion excepted)", minimum=1)
+    from .. import fillmodel as _fillmodel
+    from ..lexmodel import LexModel as _LexModel
+    _fillmodel.obligations(ctx, "R14.10", ctx.repo.mod("lexer"), set(_LexModel(ctx.repo).udl_start), ("keep", "udl"))
+
     # ---------------------------------------------------------------- R14.6
     # pragma contents end at the line end: a discarded token that swallows its newline must
     # end the directive, or the next declaration's tokens become part of the pragma's Value
@@ -405,6 +457,14 @@ def run(ctx: Ctx) -> None:
     run_shared(ctx, c08.run, {"R8.8": ("R14.8", t148), "R8.9": ("R14.8", t148)})
 
 # ---------------------------------------------------------------------------
+
+
+def m_parent_assign_name(mod, call: ast.Call) -> Optional[str]:
+    """the local a call's result is bound to (`x = call(...)`), if it is"""
+    par = mod.parent.get(call)
+    if isinstance(par, ast.Assign) and par.value is call and len(par.targets) == 1 and isinstance(par.targets[0], ast.Name):
+        return par.targets[0].id
+    return None
 
 
 def _idx(pm: ParserModel, fname: str, call: ast.Call) -> int:
